@@ -254,12 +254,18 @@ def rule_cursors(ctx, db):
         fam = _family(db, r"^<compio_io::read::buf::BufReader<R> as compio_io::read::AsyncRead>::%s$" % m)
         ok = False
         for f in fam:
-            if f.kind != "closure":
-                continue
             for bb, t in calls(f, r"AsyncBufRead::consume$|BufReader<R>.*::consume$"):
                 p = op_place(t["args"][1])
-                if p is not None and 2 in data_deps(f, p["l"])[0]:
-                    ok = True
+                if p is None:
+                    continue
+                locs, cr, _pl = data_deps(f, p["l"])
+                if f.kind == "closure" and 2 in locs:
+                    ok = True          # `.map_res(|n| { self.consume(n); n })`: the closure's argument is the count
+                if f.kind == "coroutine":
+                    # `let BufResult(res, buf) = slice.read(buf).await; if let Ok(n) = res { self.consume(n) }`
+                    for cb, ct in cr:
+                        if call_matches(ct, POLL) and ct.get("ga") and not re.search(r"fill_buf", ct["ga"][0]):
+                            ok = True
         if not fam:
             ctx.missing("R5", "BufReader::" + m)
         ctx.ob("R5", "bufreader-consumes-handed-out-count:" + m, ok,
